@@ -24,11 +24,11 @@ let err_name (e : err) : string =
 let of_raw (m : rawmsg) : json =
   match m with
   | RReq (rpc, node, meth, args) ->
-    JObj ["cls", JStr "request"; "rpc_id", of_bval rpc; "node_id", of_bval node; "method", of_bval meth; "args", of_bval args]
+    JObj ["cls", JStr "request"; "rpc_id", of_bytes rpc; "node_id", of_bytes node; "method", of_bval meth; "args", of_bval args]
   | RResp (rpc, node, r) ->
-    JObj ["cls", JStr "response"; "rpc_id", of_bval rpc; "node_id", of_bval node; "response", of_bval r]
+    JObj ["cls", JStr "response"; "rpc_id", of_bytes rpc; "node_id", of_bytes node; "response", of_bval r]
   | RErr (rpc, node, et, tx) ->
-    JObj ["cls", JStr "error"; "rpc_id", of_bval rpc; "node_id", of_bval node;
+    JObj ["cls", JStr "error"; "rpc_id", of_bytes rpc; "node_id", of_bytes node;
           "exception_type", of_bytes et; "response", of_bytes tx]
 
 let to_message (j : json) : message =
@@ -47,19 +47,26 @@ let of_res (f : 'a -> json) (r : 'a res) : json =
   | Ok a -> JObj ["ok", f a]
   | Err e -> JObj ["err", JStr (err_name e)]
 
-let () = serve (fun fn req ->
+let rec dispatch (fn : string) (req : json) : json =
   match fn with
+  | "batch" -> let sub = jstr (jfield req "sub") in JArr (SL.map (dispatch sub) (jlist (jfield req "items")))
   | "py_int" -> of_option (fun z -> JStr (string_of_z z)) (py_int_of_bytes (jbytes (jfield req "s")))
   | "utf8" -> of_bool (utf8_valid (jbytes (jfield req "s")))
-  | "bdec" ->
-    of_res (fun (v, rest) -> JArr [of_bval v; of_int (SL.length rest)])
-      (bdec (jnat (jfield req "fuel")) (jbytes (jfield req "data")))
+  | "bdecode" ->
+    of_res (fun d -> of_bval (BDict d)) (bdecode (jnat (jfield req "fuel")) (jbytes (jfield req "data")))
   | "decode" ->
-    let st = probe_receive (jnat (jfield req "fuel")) (jbytes (jfield req "data")) in
-    let eff = JObj ["failures", of_nat (probe_failures st); "processed", of_bool (probe_processed st)] in
-    (match decode_datagram (jnat (jfield req "fuel")) (jbytes (jfield req "data")) with
-     | Coq_inl m -> JObj ["msg", of_raw m; "effect", eff]
-     | Coq_inr e -> JObj ["err", JStr (err_name e); "effect", eff])
+    (* decoded message or error class, the handler's state effect, and the same with a second nesting
+       bound so that the harness can tell when the outcome depends on the recursion limit *)
+    let data = jbytes (jfield req "data") in
+    let one fuel =
+      let st = probe_receive fuel data in
+      let eff = JObj ["failures", of_nat (probe_failures st); "processed", of_bool (probe_processed st)] in
+      (match decode_datagram fuel data with
+       | Inl m -> JObj ["msg", of_raw m; "effect", eff]
+       | Inr e -> JObj ["err", JStr (err_name e); "effect", eff]) in
+    let lo = one (jnat (jfield req "fuel_lo")) in
+    let hi = one (jnat (jfield req "fuel_hi")) in
+    JObj ["lo", lo; "hi", hi]
   | "benc" ->
     let v = to_bval (jfield req "v") in
     JObj ["defined", of_bool (enc_defined v); "bytes", of_bytes (benc v); "ref", of_bytes (ref_benc v)]
@@ -73,4 +80,6 @@ let () = serve (fun fn req ->
   | "decode_compact_address" ->
     of_res (fun ((node, addr), port) -> JArr [of_bytes node; of_bytes addr; of_z port])
       (decode_compact_address (jbytes (jfield req "ca")))
-  | _ -> raise (Model_error ("unknown fn " ^ fn)))
+  | _ -> raise (Model_error ("unknown fn " ^ fn))
+
+let () = serve dispatch
